@@ -35,6 +35,7 @@ type Person implements Named {
   color: Color
   any: Any
   scores: [Int!]!
+  lim(a: Int! = 5, tags: [String]): Int
 }
 input Filter { min: Int = 1  tags: [String!]  color: Color }
 type Query {
@@ -87,6 +88,11 @@ def world_resolver(root, ctx, info, **args):
         ctx.log.append(("finish", path))
 
 
+def world_resolver_task(root, ctx, info, **args):
+    """same behaviour, distinct function object: the executor only hands non-default resolvers to the runtime"""
+    return world_resolver(root, ctx, info, **args)
+
+
 async def world_resolver_async(root, ctx, info, **args):
     path = tuple(info.path)
     ctx.log.append(("invoke", path, dict(args)))
@@ -106,19 +112,25 @@ def make_schema(deferred=(), asynchronous=False, sdl=EXEC_SDL):
     s = build_schema(sdl)
     s.default_resolver = world_resolver
     for t, f in deferred:
-        s.register_resolver(t, f, world_resolver_async if asynchronous else world_resolver)
+        s.register_resolver(t, f, world_resolver_async if asynchronous else world_resolver_task)
     return s
 
 
 class ParkingExecutor:
     """stands in for ThreadPoolRuntime._inner: submit() parks the call and returns a pending Future"""
 
-    def __init__(self):
+    def __init__(self, eager=()):
         self.parked = []
+        self.eager = set(eager)      # submission indices completed at submit time (a worker that finishes at once)
+        self.count = 0
 
     def submit(self, fn, *args, **kwargs):
         f = Future()
+        idx = self.count
+        self.count += 1
         self.parked.append((f, fn, args, kwargs))
+        if idx in self.eager:
+            self.run(len(self.parked) - 1)
         return f
 
     def run(self, index):
@@ -161,7 +173,7 @@ def next_prefix(sched):
 
 
 def run_request(schema, query, variables, world, config, schedule=None, operation_name=None, instrumentation=None, middlewares=None,
-                root=None, disable_introspection=False):
+                root=None, disable_introspection=False, eager=()):
     """returns dict(outcome='result'|'exception', result=GraphQLResult|None, exc=..., log=[...], pending=bool, tasks=int)"""
     from py_gql import process_graphql_query
     from py_gql.execution import BlockingExecutor, Executor
@@ -179,14 +191,14 @@ def run_request(schema, query, variables, world, config, schedule=None, operatio
         elif config == "executor-threadpool":
             rt = ThreadPoolRuntime(max_workers=1)
             rt._inner.shutdown(wait=False)
-            pe = ParkingExecutor()
+            pe = ParkingExecutor(eager)
             rt._inner = pe
             fut = process_graphql_query(schema, query, executor_cls=Executor, runtime=rt, **kw)
             steps = 0
             while pe.parked and steps < 10000:
                 pe.run(schedule.pick(len(pe.parked)))
                 steps += 1
-            out["tasks"] = steps
+            out["tasks"] = pe.count
             if not fut.done():
                 out["pending"] = True
                 out["outcome"], out["result"] = "pending", None
@@ -323,6 +335,8 @@ OPERATIONS = [
     ("fragment O on Owned { owner { name } } { owned { ...O ... on Dog { owner { age } } } pet { ...O ... on Cat { owner { strict } } } }", {}),
     ("query ($a: Boolean!, $b: Boolean!) { me { ...P @include(if: $a) age ...P @include(if: $b) } } fragment P on Person { name strict }", {"a": False, "b": True}),
     ("query ($a: Boolean!, $b: Boolean!) { me { ...P @skip(if: $a) ... on Person { ...P @skip(if: $b) } } } fragment P on Person { name }", {"a": True, "b": False}),
+    ("query ($x: Int) { people { lim(a: $x) name friends { lim(a: $x) } } }", {"x": None}),
+    ("query ($x: Int, $t: String) { people { lim(a: $x, tags: [$t, \"k\"]) } me { lim } }", {"x": 3, "t": None}),
     ("mutation { a(n: 1) b { name } c d }", {}),
     ("mutation M($n: Int = 2) { x: a(n: $n) y: a(n: 3) d }", {}),
 ]
